@@ -162,7 +162,7 @@ def gen_raw_cases(r, count):
         if k == 2:
             return slot(body, max(0, len(body) - r.range(1, 3)))              # truncated
         if k == 3:
-            return slot(body, r.choice([0, 255, 256, 65536, 2 ** 24, 2 ** 31, 2 ** 32 - 1]))
+            return slot(body, r.choice([0, 255, 256, 300, 2 ** 24, 2 ** 31, 2 ** 32 - 1]))   # (a successful 64 KiB read is quadratic in the model evaluator)
         if k == 4:
             return slot(bytes([0x80 | body[0]]) + b"\x00" + body[1:]) if body[0] < 0x80 else slot(body)   # non-canonical varint
         if k == 5:
@@ -910,7 +910,6 @@ def _run(ctx, binp, tmp):
                 r.shuffle(rest)
                 points = sorted(set(pts[:50] + rest[:20] + [len(tr.ev)]))
             reqs, meta = [], []
-            n_cont_w = 0
             for n in points:
                 specs = specs_for(tr, n, r.fork(), cap, thorough)
                 dist["crash_points"] += 1
@@ -919,11 +918,16 @@ def _run(ctx, binp, tmp):
                 for si, (spec, dec) in enumerate(specs):
                     pend = tr.pending(n)
                     torn_root = any(isinstance(d, tuple) and d[0] in "gps" and tr.ev[i]["k"] == "P" and tr.ev[i]["off"] < FREE_START for i, d in zip(pend, dec))
-                    cont = ((torn_root and r.chance(1, 6)) or r.chance(1, 40)) and n_cont_w < 12
-                    if cont:
-                        n_cont_w += 1
-                    reqs.append((wid, n, spec, cont))
+                    reqs.append((wid, n, spec, False))
                     meta.append((n, spec, dec, torn_root))
+            # continuation commits on recovered writers: a sample spread over the whole trace,
+            # mostly on images with a torn root record (each costs a real fallocate+fsync and ~60 sub-images)
+            torn_idx = [i for i, mm in enumerate(meta) if mm[3] and tr.completed(mm[0])]
+            other_idx = [i for i, mm in enumerate(meta) if not mm[3] and tr.completed(mm[0])]
+            r.shuffle(torn_idx)
+            r.shuffle(other_idx)
+            for i in torn_idx[:(16 if thorough else 9)] + other_idx[:3]:
+                reqs[i] = reqs[i][:3] + (True,)
             lines = ses.images(reqs)
             for (n, spec, dec, torn_root), line in zip(meta, lines):
                 res = parse_result(line)
@@ -1001,24 +1005,31 @@ def _run(ctx, binp, tmp):
     good = [t for t in traces if t.status == "ok" and not t.problems]
 
     def render(chunk):
-        tr = chunk[0]
-        return ("Definition wl : list sop := %s.\nDefinition expected : list cev := %s.\n"
-                "Definition expres : list (N * Z * N * N * Z) := %s.\n"
-                "Eval vm_compute in (check_trace wl expected expres).\n" % (
-                    vlib.coq_list(render_ops(tr)), vlib.coq_list(render_expected(tr)), vlib.coq_list(render_results(tr))))
+        out = []
+        for i, tr in enumerate(chunk):
+            out.append("Definition wl_%d : list sop := %s.\nDefinition expected_%d : list cev := %s.\n"
+                       "Definition expres_%d : list (N * Z * N * N * Z) := %s.\n" % (
+                           i, vlib.coq_list(render_ops(tr)), i, vlib.coq_list(render_expected(tr)), i, vlib.coq_list(render_results(tr))))
+        out.append("Eval vm_compute in %s.\n" % vlib.coq_list(["check_trace wl_%d expected_%d expres_%d" % (i, i, i) for i in range(len(chunk))]))
+        return "".join(out)
     mism = []
     if good:
-        outs, chunks = vlib.coq_eval_sharded(ctx, "c15_trace", HEADER, good, render, shard=1, timeout=1500)
+        # big workloads (MiB payloads) get a file of their own, the others share files
+        bigs = [t for t in good if any(e["k"] == "P" and e["len"] > 100000 for e in t.ev)]
+        small = [t for t in good if t not in bigs]
+        groups = [[t] for t in bigs] + [small[i:i + 4] for i in range(0, len(small), 4)]
+        outs, chunks = vlib.coq_eval_sharded(ctx, "c15_trace", HEADER, groups, lambda ch: render(ch[0]), shard=1, timeout=1500)
         for (rc, o), ch in zip(outs, chunks):
-            tr = ch[0]
+            grp = ch[0]
             v = vlib.parse_coq_value(o) if rc == 0 else None
-            if v is None or len(v) != 3:
-                ctx.oblige("correspondence:model-eval:%s" % tr.wid, False, o[-1500:])
+            if v is None or len(v) != len(grp):
+                ctx.oblige("correspondence:model-eval:%s" % grp[0].wid, False, o[-1500:])
                 continue
-            d1, d2, ok = v
-            if d1 or d2 or ok is not True:
-                mism.append("%s (%s %s): first differing syscall %s, first differing result %s, reopen ok=%s" % (
-                    tr.wid, tr.kind, ",".join(tr.ops)[:300], d1, d2, ok))
+            for tr, res in zip(grp, v):
+                d1, d2, ok = res
+                if d1 or d2 or ok is not True:
+                    mism.append("%s (%s %s): first differing syscall %s, first differing result %s, reopen ok=%s" % (
+                        tr.wid, tr.kind, ",".join(tr.ops)[:300], d1, d2, ok))
     ctx.oblige("correspondence:write-protocol:model=impl", not mism, "; ".join(mism[:3]))
 
     # ---- correspondence 2: open on crash images, model == impl
@@ -1051,7 +1062,7 @@ def _run(ctx, binp, tmp):
     usable = [c for c in open_cases if c[3] != "?"]
     size_bad = [c for c in usable if c[0] != c[5]]
     if usable:
-        outs, chunks = vlib.coq_eval_sharded(ctx, "c15_open", HEADER, usable, render_open, shard=120, timeout=1500)
+        outs, chunks = vlib.coq_eval_sharded(ctx, "c15_open", HEADER, usable, render_open, shard=(300 if not ctx.thorough else 250), timeout=1500)
         base = 0
         for (rc, o), ch in zip(outs, chunks):
             v = vlib.parse_coq_value(o) if rc == 0 else None
